@@ -40,11 +40,29 @@ fn dec(t: &[String]) -> Option<C> {
     })?;
     Some(C { ty, regions, ops })
 }
+/// counter types: 0 i64, 1 u64, 2 u8, 3 u16, 4 i32, 5 f32, 6 f64, 7 i8, 8 u32. (signed, greatest count that is exact in the type)
+pub fn ty_range(ty: u64) -> (bool, i128) {
+    match ty { 0 => (true, i64::MAX as i128), 1 => (false, u64::MAX as i128), 2 => (false, 255), 3 => (false, 65535), 4 => (true, i32::MAX as i128),
+               5 => (true, 1 << 24), 6 => (true, 1 << 53), 7 => (true, 127), _ => (false, u32::MAX as i128) }
+}
+pub const N_TYPES: u64 = 9;
 fn valid(c: &C) -> bool {
-    c.regions.iter().all(|r| r.start < r.end) && c.ops.iter().all(|o| match o {
-        Op::Tag(t, k) => t.start < t.end && (c.ty == 0 || *k >= 0),
-        Op::At(i, k) => *i < c.regions.len() && (c.ty == 0 || *k >= 0),
+    let (signed, max) = ty_range(c.ty);
+    let ok_k = |k: i64| (signed || k >= 0) && (k as i128).abs() <= max;
+    if !(c.regions.iter().all(|r| r.start < r.end) && c.ops.iter().all(|o| match o {
+        Op::Tag(t, k) => t.start < t.end && ok_k(*k),
+        Op::At(i, k) => *i < c.regions.len() && ok_k(*k),
         Op::Reset => true,
+    })) { return false; }
+    if c.ty < 2 { return true; }
+    // narrow counter types: no region's count may leave the type's exact range (whatever the resets); the TOTAL may —
+    // total_count is an f64 whatever the counter type
+    c.regions.iter().enumerate().all(|(i, r)| {
+        let s: i128 = c.ops.iter().map(|o| match o {
+            Op::Tag(t, k) if t.chrom == r.chrom && t.start < r.end && r.start < t.end => (*k as i128).abs(),
+            Op::At(j, k) if *j == i => (*k as i128).abs(),
+            _ => 0 }).sum();
+        s <= max
     })
 }
 
@@ -81,7 +99,8 @@ macro_rules! run_typed {
 fn exec(t: &[String]) -> Option<String> {
     let c = dec(t)?;
     let fl = split_flavour(t).1;
-    Some(if c.ty == 0 { run_typed!(i64, &c, fl) } else { run_typed!(u64, &c, fl) })
+    Some(match c.ty { 0 => run_typed!(i64, &c, fl), 1 => run_typed!(u64, &c, fl), 2 => run_typed!(u8, &c, fl), 3 => run_typed!(u16, &c, fl), 4 => run_typed!(i32, &c, fl),
+                      5 => run_typed!(f32, &c, fl), 6 => run_typed!(f64, &c, fl), 7 => run_typed!(i8, &c, fl), _ => run_typed!(u32, &c, fl) })
 }
 
 fn shrink(t: &[String]) -> Vec<Vec<String>> { shrink_flavoured(t, shrink0) }
@@ -107,7 +126,7 @@ fn shrink0(t: &[String]) -> Vec<Vec<String>> {
         let r = &c.regions[i];
         if r.end > r.start + 1 { let mut d = c.clone(); d.regions[i].end = r.start + (r.end - r.start) / 2; out.push(d); }
     }
-    if c.ty != 0 { out.push(C { ty: 0, ..c.clone() }); }
+    if c.ty >= 2 { out.push(C { ty: if ty_range(c.ty).0 { 0 } else { 1 }, ..c.clone() }); } else if c.ty != 0 { out.push(C { ty: 0, ..c.clone() }); }
     out.into_iter().filter(valid).map(|c| enc(&c)).collect()
 }
 
@@ -136,25 +155,41 @@ fn gen(rng: &mut Rng, tier: Tier) -> Vec<Case> {
     let n_cases = match tier { Tier::Quick => 600, Tier::Thorough => 10000 };
     for i in 0..n_cases {
         let small = i % 4 != 0;
-        let ty = rng.below(2);
+        let ty = if i % 3 == 2 { rng.below(N_TYPES) } else { rng.below(2) };
+        let (signed, tmax) = ty_range(ty);
         let nch = rng.range(1, 3) as usize;
         let chroms: Vec<&str> = gen_chroms(rng, nch);
         let n = if i % 30 == 0 { 0 } else if small { rng.range(1, 6) as usize } else { rng.range(5, 60) as usize };
         let max = if small { 16 } else { 2000 };
         let base = if !small && rng.chance(1, 4) { u64::MAX - 100_000 } else { 0 };
         let regions = gen_regions(rng, n, max, base, &chroms);
-        let nops = if small { rng.range(1, 8) } else { rng.range(3, 30) } as usize;
+        // a narrow counter type gets a long history whose TOTAL leaves the type's range while no region's count does
+        let long_total = ty >= 2 && tmax <= 65535 && rng.chance(2, 3);
+        let nops = if long_total { rng.range(100, 260) } else if small { rng.range(1, 8) } else { rng.range(3, 30) } as usize;
         let mut ops = vec![];
         if rng.chance(1, 8) { ops.push(Op::Reset); }
         for _ in 0..nops {
-            let k = match rng.below(8) { 0 => 0, 1 => 1_000_000_007, 2 if ty == 0 => -(rng.range(1, 5) as i64), _ => rng.range(1, 4) as i64 };
+            let k = match rng.below(8) { 0 => 0, 1 if tmax > 2_000_000_000 => 1_000_000_007, 2 if signed => -(rng.range(1, 5) as i64), _ => rng.range(1, 4) as i64 };
             match rng.below(10) {
-                0 => { ops.push(Op::Reset); if rng.chance(1, 4) { ops.push(Op::Reset); } }
-                1 | 2 if n > 0 => ops.push(Op::At(rng.below(n as u64) as usize, k)),
+                0 if !long_total || rng.chance(1, 20) => { ops.push(Op::Reset); if rng.chance(1, 4) { ops.push(Op::Reset); } }
+                1 | 2 if n > 0 && !long_total => ops.push(Op::At(rng.below(n as u64) as usize, k)),
+                _ if long_total && rng.chance(9, 10) => ops.push(Op::Tag(Rec::new("chrNoRegion", 5, 9), if tmax <= 255 { rng.range(1, 4) as i64 } else { rng.range(200, 400) as i64 })),
                 _ => ops.push(Op::Tag(gen_tag(rng, &regions, max, base, &chroms), k)),
             }
+            // multiplicities that cancel exactly (signed / float counters), then a reset: the total is 0 while counts are not
+            if signed && n > 0 && rng.chance(1, 12) {
+                let kk = rng.range(1, 4) as i64;
+                let r = ops.iter().rposition(|o| matches!(o, Op::Reset)).map(|p| p + 1).unwrap_or(0);
+                let bal: i64 = ops[r..].iter().map(|o| match o { Op::Tag(_, k) | Op::At(_, k) => *k, _ => 0 }).sum();
+                ops.push(Op::Tag(gen_tag(rng, &regions, max, base, &chroms), kk));
+                ops.push(Op::At(rng.below(n as u64) as usize, -(bal + kk)));
+                ops.push(Op::Reset);
+                ops.push(Op::Tag(gen_tag(rng, &regions, max, base, &chroms), 1));
+            }
         }
-        out.push(Case::new(if small { "boundary" } else { "random" }, enc(&C { ty, regions, ops })));
+        let mut c = C { ty, regions, ops };
+        if !valid(&c) { c.ty = if signed { 0 } else { 1 }; }
+        out.push(Case::new(if small { "boundary" } else { "random" }, enc(&c)));
     }
     add_flavours(rng, &mut out);
     out
